@@ -15,7 +15,7 @@ PROP = "C11"
 LEVEL = "exploration"
 VARIANTS = ("omp",)
 CASE_TIMEOUT = 1200
-RULE = ("kind real: zoo crystals (pair model) x meshes (incl. 1 along an axis, shifted) x symmetry on/off: tetrahedron cumulative weights above the top sum to "
+RULE = ("kind real: zoo crystals (pair model) x meshes (incl. 1 along an axis, shifted) x symmetry on/off x frequency grids (ascending, descending, shuffled): tetrahedron cumulative weights above the top sum to "
         "the number of bands, smearing DOS (normal|Cauchy) integrates to it, total/PDOS non-negative, sum over atoms and over 3N xyz components equals the total at "
         "every frequency (same mesh), direction-projected PDOS >= 0, C tetrahedron-DOS kernel equals the Python iterator; "
         "kind field: synthetic frequency fields (smooth, rough, exact ties, constant bands) on grids whose reciprocal lattice makes each of the 4 main diagonals "
@@ -139,6 +139,45 @@ def run_case(c):
                 bad("negative_dos", "tetrahedron total DOS negative: %.3e" % dC.min(), sym=sym, **feat)
             if np.abs(dC - dP).max() > 1e-9 * max(dC.max(), 1e-12):
                 bad("dos_c_vs_py", "tetrahedron total DOS: compiled kernel and Python iterator differ by %.3e (max %.3e)" % (np.abs(dC - dP).max(), dC.max()), sym=sym, **feat)
+            # frequency grids in any order (descending draw area, shuffled points): the density at a frequency does not depend on where the
+            # frequency stands in the list; compiled driver vs Python iterator on the very same grid
+            prng = np.random.default_rng(c["seed"] + 17)
+            asc = np.array(td.frequency_points)
+            for label in ("descending", "shuffled"):
+                t3 = TotalDos(m, use_tetrahedron_method=True)
+                if label == "descending":
+                    t3.set_draw_area(fmax + 0.05 * span, fmin - 0.05 * span, -span / 57.3)
+                    pts = np.array(t3.frequency_points)
+                else:
+                    t3.set_draw_area(fmin - 0.05 * span, fmax + 0.05 * span, span / 57.3)
+                    pts = np.array(asc[prng.permutation(len(asc))], dtype="double", order="C")
+                    t3._frequency_points = pts
+                if len(pts) < 3:
+                    continue
+                t3.run()
+                d3 = np.array(t3.dos)
+                t4 = TotalDos(m, use_tetrahedron_method=True)
+                t4._frequency_points = pts.copy()
+                t4._openmp_thm = False
+                t4.run()
+                d4 = np.array(t4.dos)
+                obs["n_grid_order"] = obs.get("n_grid_order", 0) + 1
+                if (d3 < -1e-10).any():
+                    bad("negative_dos", "tetrahedron total DOS negative on a %s frequency grid: %.3e" % (label, d3.min()), sym=sym, grid=label, **feat)
+                if d3.shape != d4.shape or np.abs(d3 - d4).max() > 1e-9 * max(d4.max(), 1e-12):
+                    bad("dos_c_vs_py", "tetrahedron total DOS on a %s frequency grid: compiled kernel and Python iterator differ by %.3e (max %.3e)" % (
+                        label, np.abs(d3 - d4).max() if d3.shape == d4.shape else np.inf, d4.max()), sym=sym, grid=label, **feat)
+                if label == "shuffled":
+                    srt = np.argsort(pts)
+                    if np.abs(d3[srt] - dC).max() > 1e-9 * max(dC.max(), 1e-12):
+                        bad("dos_grid_order", "tetrahedron total DOS changes when the same frequency points are given in another order: %.3e (max %.3e)" % (np.abs(d3[srt] - dC).max(), dC.max()), sym=sym, grid=label, **feat)
+                else:
+                    t5 = TotalDos(m, use_tetrahedron_method=True)
+                    t5._frequency_points = np.array(pts[::-1], dtype="double", order="C")  # the same points, ascending
+                    t5.run()
+                    d5 = np.array(t5.dos)[::-1]
+                    if np.abs(d3 - d5).max() > 1e-9 * max(d5.max(), 1e-12):
+                        bad("dos_grid_order", "tetrahedron total DOS on a descending grid differs from the same points in ascending order by %.3e (max %.3e)" % (np.abs(d3 - d5).max(), d5.max()), sym=sym, grid=label, **feat)
         # --- full mesh with eigenvectors: additivity
         sigma = c["sigma_rel"] * span
         for tet in (True, False):
@@ -189,6 +228,25 @@ def run_case(c):
                     e = np.abs(pd.sum(axis=0) - tot).max()
                     if e > 1e-9 * max(tot.max(), 1e-12):
                         bad("pdos_additivity", "sum of %s PDOS differs from the total DOS by %.3e (max %.3e)" % ("xyz" if xyz else "atom", e, tot.max()), tet=tet, xyz=xyz, **feat)
+            if tet:
+                # the same through the API with a descending grid (freq_min > freq_max, negative pitch)
+                kd = dict(freq_min=kw["freq_max"], freq_max=kw["freq_min"], freq_pitch=-kw["freq_pitch"])
+                ph.run_total_dos(use_tetrahedron_method=True, **kd)
+                dd = ph.get_total_dos_dict()
+                totd, fd = np.array(dd["total_dos"]), np.array(dd["frequency_points"])
+                ph.run_projected_dos(use_tetrahedron_method=True, **kd)
+                pdd_ = np.array(ph.get_projected_dos_dict()["projected_dos"])
+                obs["n_grid_order"] = obs.get("n_grid_order", 0) + 1
+                if len(fd) > 2:
+                    if pdd_.shape[1] != len(totd) or np.abs(pdd_.sum(axis=0) - totd).max() > 1e-9 * max(totd.max(), 1e-12):
+                        bad("pdos_additivity", "descending frequency grid: sum of atom PDOS differs from the total DOS", tet=tet, grid="descending", **feat)
+                    from phonopy.phonon.dos import TotalDos as TD2
+
+                    t6 = TD2(ph.mesh, use_tetrahedron_method=True)
+                    t6._frequency_points = np.array(fd[::-1], dtype="double", order="C")
+                    t6.run()
+                    if np.abs(np.array(t6.dos)[::-1] - totd).max() > 1e-9 * max(totd.max(), 1e-12):
+                        bad("dos_grid_order", "run_total_dos on a descending grid differs from the same points in ascending order by %.3e" % np.abs(np.array(t6.dos)[::-1] - totd).max(), tet=tet, grid="descending", **feat)
             rng = np.random.default_rng(c["seed"])
             ph.run_projected_dos(direction=rng.standard_normal(3).tolist(), use_tetrahedron_method=tet, sigma=None if tet else sigma, **kw)
             pdd = np.array(ph.get_projected_dos_dict()["projected_dos"])
